@@ -45,7 +45,10 @@ func setupC17(x *Ctx) {
 
 	// services the provider resolves as soon as it has been started, i.e. while
 	// MdnsManager.Start / Hub.Start are still running on the application's goroutine
-	nEarly := x.Biased("early-services", 3, 0.6)
+	nEarly := 0
+	if x.Feat(FeatEarlyResolve) {
+		nEarly = x.Biased("early-services", 3, 0.6)
+	}
 	if nEarly > len(svcs) {
 		nEarly = len(svcs)
 	}
